@@ -20,8 +20,7 @@ RULE = (
     'changed, rise / recession run again): whether the repeated commands are refused or accepted, the tables must '
     'still satisfy the walker.  Change of units: the same record with rain in units of 2^-30 mm or 2^12 mm (storm '
     'threshold with it) and with levels in units of 2^-4 mm or 2^6 mm (jump threshold and grid step with it) -- '
-    'multiplication by a power of two is exact, so the stored offsets and crossing values must be the base ones in '
-    'the other unit (1e-9 of the largest value in the table), with the same intervals and levels.  Non-trivial: >= 3 intervals and >= 1 level crossed by >= 3 of '
+    'multiplication by a power of two is exact, so the tables must hold the same intervals and levels with the base values in the other unit (1e-9 of the largest value plus the absolute tolerance of the root finder that locates crossings, 2e-12 on the abscissa), and the stationarity condition must hold in the unit of the record itself (residual sums within 1e-9 of the sum of magnitudes, no absolute floor).  Non-trivial: >= 3 intervals and >= 1 level crossed by >= 3 of '
     'them; distinct by overlap-graph signature / dataset digest.'
 )
 ASSUMPTIONS = [
@@ -307,11 +306,35 @@ def check_units(ctx, rng, case, index):
                     break
                 scale = max([abs(r[-1]) for r in a] + [0.0])
                 worst = max([abs(ra[-1] - rb[-1] / factor[kind]) for ra, rb in zip(a, b)] + [0.0])
-                if worst > 1e-9 * scale:
+                # crossings are located by a root finder whose tolerance on the abscissa is absolute
+                # (brentq, xtol 2e-12): in a unit of 2^-30 mm that is 2e-3 mm of the base record
+                if worst > 1e-9 * scale + 4e-12 / factor[kind]:
                     rec.violation('units:{}-values-are-not-the-base-values-in-the-other-unit'.format(table),
                                   {'variant': name, 'factor': factor[kind], 'largest_value': scale, 'largest_difference': worst,
                                    'relative': worst / scale if scale else None}, witness_case, 'units')
                     break
+            # stationarity in the unit of the record itself: for every interval the residuals
+            # against the level means sum to zero, to 1e-9 of the sum of the magnitudes involved
+            # (no absolute floor: the record may be measured in any unit)
+            offsets = dict(got[kind][1][CURVE_TABLES[kind][0][0]])
+            crossings = got[kind][1][CURVE_TABLES[kind][1][0]]
+            by_level = {}
+            for s_, k_, c_ in crossings:
+                by_level.setdefault(k_, []).append(offsets[s_] + c_)
+            mean = {k_: math.fsum(v) / len(v) for k_, v in by_level.items()}
+            for s_ in offsets:
+                mine = [(k_, c_) for s2, k_, c_ in crossings if s2 == s_]
+                if not mine:
+                    continue
+                r = math.fsum(offsets[s_] + c_ - mean[k_] for k_, c_ in mine)
+                sc = math.fsum(abs(offsets[s_] + c_) + abs(mean[k_]) for k_, c_ in mine)
+                if abs(r) > 1e-9 * sc:
+                    rec.violation('units:{}-residuals-of-an-interval-do-not-sum-to-zero-in-the-unit-of-the-record'.format(kind),
+                                  {'variant': name, 'interval': s_, 'residual_sum': r, 'sum_of_magnitudes': sc, 'relative': abs(r) / sc if sc else None},
+                                  witness_case, 'units')
+                    break
+            else:
+                rec.hit('units:{}-stationarity-checked-in-the-unit-of-the-record'.format(kind))
         if base['rise'][0] == 'ok' and len(base['rise'][1]['rising_interval']) >= 3:
             rec.mark_nontrivial(core.digest(('units', name, case['rain'], case['z'])))
 
